@@ -29,6 +29,10 @@ META = {
         "srctools.bsp:BSP._lmp_read_surfedges", "srctools.bsp:BSP._lmp_write_surfedges",
         "srctools.bsp:BSP._lmp_read_primitives", "srctools.bsp:BSP._lmp_write_primitives",
         "srctools.bsp:BSP._read_faces_common", "srctools.bsp:BSP._write_faces_common",
+        "srctools.bsp:BSP._lmp_read_faces", "srctools.bsp:BSP._lmp_write_faces",
+        "srctools.bsp:BSP._lmp_read_orig_faces", "srctools.bsp:BSP._lmp_write_orig_faces",
+        "srctools.bsp:BSP._lmp_read_hdr_faces", "srctools.bsp:BSP._lmp_write_hdr_faces",
+        "srctools.bsp:BSP._lmp_write_ents", "srctools.tokenizer:escape_text",
         "srctools.bsp:BSP._lmp_read_brushes", "srctools.bsp:BSP._lmp_write_brushes",
         "srctools.bsp:BSP._lmp_read_water_leaf_info", "srctools.bsp:BSP._lmp_write_water_leaf_info",
         "srctools.bsp:BSP._lmp_read_visleafs", "srctools.bsp:BSP._lmp_write_visleafs",
@@ -1602,12 +1606,22 @@ def obligations(tier):
 META["bounds"] = ("lists of length 0..2 (3 for index lists / find_or_extend), every integer field of the first element an UNBOUNDED symbolic int "
                   "(so both the in-range round trip and the out-of-range rejection are covered), flag words fully symbolic (64/32/7 bits), "
                   "enum members and aliasing choices by symbolic index, floats concrete float32-exact constants; 7 BSP layouts; 13 static prop versions; "
-                  "RLE rows of 0..6 symbolic bytes (+ zero runs 254..765 in the thorough tier); texture names of length <= 2 over a 4-letter alphabet")
+                  "RLE rows of 0..6 symbolic bytes (+ zero runs 254..765 in the thorough tier); texture names of length <= 2 over a 4-letter alphabet; "
+                  "EXTENSION: <= 2 faces (+ parallel HDR list) over 1-2 original faces, 13 symbolic int/bool face fields in three groups, edge / primitive "
+                  "lists as windows of pools of 3 / 2 (aliasing by symbolic index: enumeration), 3 layouts quick / 7 thorough; <= 2 water-leaf entries "
+                  "over 3 texinfos; worldspawn + <= 2 brush entities, <= 2 physics solids of <= 2 (thorough 4) symbolic bytes, key-values block by index; "
+                  "entity lump: 1 entity + worldspawn with 1 keyvalue and 2 outputs, ONE text slot (value / parameter / target / input / output name) "
+                  "= constant context + symbolic string of exact length 0..1 (thorough 2) over all ASCII code points except NUL + U+DC80, U+DCFF, "
+                  "U+00E9, 5 contexts (3 for target / input / output name in the quick tier); keys, key characters, `times`, separator mode by "
+                  "symbolic index (hashed or formatted by C code: enumeration)")
 META["outside"] = ("floats as symbols (concrete float32-exact constants only); lists longer than the bounds; LZMA-compressed lumps and the file header / "
-                   "lump table (C10); pakfile; NOT REACHED in this round: faces / orig_faces / hdr_faces / surfedges+edges, bmodels + physics, water "
-                   "leaf info, entity lump (a harness h_ents exists but does not exhaust: 15 paths in 200 s) - these pairs are not claimed; model "
-                   "version-absent "
-                   "StaticProp fields (documented per version) are not compared")
+                   "lump table (C10); pakfile; version-absent StaticProp fields (documented per version) are not compared; faces referenced from "
+                   "leafs / nodes (LEAFFACES, node face ranges: those lists are empty in `tree`), displacement info, lighting data; Face.light_styles of a "
+                   "length other than 4 (char[4] is padded / cut by struct); HDR face lists that are not parallel to the face list (one FACEIDS lump "
+                   "serves both); symbolic text in more than one entity-lump slot at a time, slot strings longer than 2, symbolic entity KEYS (hashed: "
+                   "18 characters by index instead), `times` / delay as symbols, commas inside target / input / parameter in the comma format and "
+                   "values that look like an output (exactly four commas) - the format itself cannot tell those apart (Output.parse docstring); the "
+                   "superseded joined-text harness h_ents is kept in the module but is not an obligation")
 META["stubs"] = [
     "srctools.bsp.AtomicWriter -> object whose __enter__ raises: BSP.save() runs its real rebuild loop and stops before file output",
     "srctools.bsp.open -> io.BytesIO over a synthesised blank BSP (concrete), read by the real BSP.read()",
@@ -1617,10 +1631,20 @@ META["stubs"] = [
     "srctools.bsp.BytesIO -> vf.stubs.binmodel.ModelBytesIO (slice/concatenate buffer), validated against io.BytesIO on every run",
     "srctools.bsp.{StaticPropFlags,VisLeafFlags,BrushContents,SurfFlags}(value) -> range check + pseudo-member (what Flag._missing_ builds) without "
     "hashing the value; validated against the real lookup on 17 values per class on every run",
+    "entity-lump workers only: srctools.bsp.BytesIO -> piece-keeping sink whose getvalue() is a bytes stand-in (isinstance(x, bytes) holds) that "
+    "decodes piece by piece into the list of str chunks handed to the real Tokenizer (concrete byte runs by the real ascii/surrogateescape codec, a "
+    "symbolic byte b by chr(b) / chr(0xDC00 + b)); text stubs of C01/C06 (sys.intern -> identity, BARE_DISALLOWED -> tuple, casefold fast path, "
+    "float()/int() of de-proxied text); native replays use the real io.BytesIO and one joined string",
     "engine tweak: SymbolicInt.__or__ fast path (lo|hi == lo+hi when the solver proves 0<=lo<2**k and hi%2**k==0; x|(x - x%2**k) == x), else CrossHair's own",
 ]
 META["assumptions"] = [
     "the raw lumps produced by the rebuild loop reach the reader unchanged (file transport is C10)",
     "well-formed values: names without NUL, Overlay.face_count == len(faces), visibility rows of ceil(n/8) bytes, even _unknown_bevel_bits, "
     "a prop's flags are a valid StaticPropFlags word",
+    "extension: Face.light_styles has exactly 4 bytes; hdr_faces is empty or parallel to faces (same hammer ids); a face's hammer id is compared "
+    "only when it has an original face (None is written as 0: documented dummy); an original face's own texinfo / hammer id are not compared "
+    "(the reader overwrites them from the split face: documented); BModel.phys_keyvalues None and an empty block are the same when solids "
+    "exist; a model face window that only partly overlaps the tail of the face list is stored as a second copy (compared by value)",
+    "extension: entity-lump chunk boundaries are immaterial to the tokenizer (C03); a text containing 0x1b (the output separator) may be "
+    "refused by the READER with ValueError - accepted only when the slot really contains 0x1b; no NUL in entity text (C strings)",
 ]
